@@ -114,11 +114,11 @@ class C12(C11):
                 gone = [k for k in list(self.shift_end) if k[0] == nid and k[1] not in ids]
                 exp = []
                 for k in gone:
-                    exp.append(t - self.shift_end.pop(k))
+                    exp.append(float(t) - float(self.shift_end.pop(k)))
                 if self.pre is not None and self.pre[0] == "shift" and R.ev_nid == nid:
                     for sid, (busy, cid, end, offd, nrec) in self.pre[1].items():
                         if sid not in ids and (nid, sid) not in gone and not offd:
-                            exp.append(t - t)
+                            exp.append(0.0)
                 if sorted(float(x) for x in new) != sorted(float(x) for x in exp) and not R.S.get("exact"):
                     self.fail("overtime-bookkeeping", "node %s at t=%r: overtime entries %r, departures imply %r" % (nid, t, new, exp))
             elif s["k"] == "slot":
